@@ -580,3 +580,38 @@ def units(prop, tier):
             out.append(pyvc_unit(prop, 'factory.DES3.new_cfb', lambda: openpgp_registry('DES3', 'new'), [C + 'DES3.new']))
             out.append(pyvc_unit(prop, 'mode.openpgp.init.DES3', lambda: openpgp_registry('DES3', 'init'), [OP + '.__init__'], weight=3))
     return out
+
+
+# ======================================================================================================================
+# Notes
+#
+# OBSERVATION (no clause violated; replayed natively): `self._next = ["encrypt"]` is committed BEFORE the output-buffer checks, so
+#   c = AES.new(k, MODE_CBC, iv=iv); c.encrypt(b'x'*16, output=b'y'*16) -> TypeError;  c.decrypt(ct) -> TypeError ("cannot be
+#   called after encrypt()") although nothing was encrypted (same for CFB/OFB/CTR, for decrypt, and for the wrong-length
+#   ValueError).  An argument error, not a diagram-forbidden call: the 'rw' contracts claim unchanged_on_raise for the guard's
+#   TypeError only, the `*.readonly_output` units claim "TypeError, native state untouched" and nothing about `_next`.
+# FINDING fixed in /repo (7579fde7): _create_cfb_cipher accepted segment_size = 8*(2**64+1) and 8-8*2**64 as segment_size 8
+#   (c_size_t wraps modulo 2**64); found by ensures.accepted / ensures.segment of unit mode.cfb.factory.AES.
+# NOT PROVED: a WRITABLE memoryview as `output=` (engine memoryviews are read-only snapshots); ERR_MEMORY outcomes of the native
+#   start functions (allocation is assumed to succeed, rawapi.TRUSTED).
+#
+# Strength check (tools/mut.py; "exit 1 @ obligation" = caught, RENAME = harmless refactoring must not give exit 1):
+#   _mode_cbc.py  self._next = ["decrypt"] -> ["encrypt"]                  exit 1 @ CbcMode.decrypt.ensures.next, ensures.valid        (C10)
+#   _mode_cbc.py  CBC_encrypt(in, out) arguments swapped                   exit 1 @ CbcMode.encrypt.call_pre.isinstance_out_..., ensures.value, modifies  (C17)
+#   _mode_cbc.py  return get_raw_buffer(ciphertext)[1:]                    exit 1 @ CbcMode.encrypt.ensures.value                      (C09)
+#   _mode_cbc.py  is_writeable_buffer(output) check removed                exit 1 @ CbcMode.encrypt.call_pre.isinstance_out_... (unit mode.cbc.readonly_output)
+#   _mode_cbc.py  self.iv = _copy_bytes(1, None, iv)                       exit 1 @ CbcMode.__init__.ensures.iv, ensures.valid         (C02)
+#   _mode_cbc.py  block_cipher.release() removed                           exit 1 @ CbcMode.__init__.ensures.handover                  (C17)
+#   _mode_cbc.py  "iv and IV" TypeError removed                            exit 1 @ _create_cbc_cipher.ensures.accepted, ensures.iv    (C02)
+#   _mode_cbc.py  if len(iv) > factory.block_size  (was !=)                exit 0: equivalent mutant -- a short IV is then refused by CBC_start_operation
+#                                                                           (native model) and still surfaces as ValueError
+#   _mode_cbc.py  RENAME result -> rc in encrypt                           exit 0
+#   _mode_cfb.py  segment_size default 8 -> 16                             exit 1 @ _create_cfb_cipher.ensures.segment                 (C02)
+#   _mode_cfb.py  rem != 0 -> rem == 1                                     exit 1 @ _create_cfb_cipher.ensures.accepted, ensures.segment
+#   _mode_cfb.py  c_size_t(segment_size + 1)                               exit 1 @ CfbMode.__init__.ensures.segment, raises_iff.ValueError.*
+#   _mode_ofb.py  encrypt guard removed                                    exit 1 @ OfbMode.encrypt.raises_iff.TypeError.if, ensures.value  (C10)
+#   _mode_ecb.py  if len(plaintext) > len(output)  (was !=)                exit 1 @ EcbMode.encrypt.call_pre.isinstance_out_bytearray_and_len_out_data_len  (C17)
+#   _mode_ecb.py  cipher_state.block_size = factory.block_size * 2         exit 1 @ _create_ecb_cipher.call_pre.hasattr_block_cipher_block_size_...
+#   _mode_openpgp.py  iv + iv[-2:] -> iv + iv[:2]                          exit 1 @ OpenPgpMode.__init__.ensures.prefix_enc            (C02)
+#   _mode_openpgp.py  IV=self._encrypted_IV[:self.block_size]              exit 1 @ OpenPgpMode.__init__.ensures.valid
+#   _mode_openpgp.py  res = res + self._encrypted_IV                       exit 1 @ OpenPgpMode.encrypt.ensures.value
